@@ -275,6 +275,8 @@ MintRuid(S, r, cnt) ==
   IF ~ResDef[r].ruid THEN Fl(S, "InvalidNonFungibleIdType")
   ELSE DoMintIds([S EXCEPT !.ctr[r] = @ + cnt], r, (S.ctr[r] + 1)..(S.ctr[r] + cnt))
 
+MintSingleRuid(S, r) == MintRuid(S, r, 1)      \* mint_single_ruid: its own entry point (own supply update), returns (bucket, id)
+
 \* burn of a bucket's content (the bucket node is dropped: not possible under a live proof)
 BurnC(S, r, c) ==
   IF IsLocked(c) THEN Fl(S, "BucketLocked")
@@ -293,6 +295,24 @@ BurnNFInAccount(S, a, r, ids) ==
   IF ~S.sigs THEN Fl(S, "Unauthorized")
   ELSE IF ~(ids \subseteq S.vault[a][r].ids) THEN Fl(S, "MissingId")
   ELSE BurnC([S EXCEPT !.vault[a][r].ids = @ \ ids], r, NC(ids))
+
+\* non-fungible vault take / burn / recall BY AMOUNT: which ids leave depends on the storage order, so the model only
+\* offers amounts whose outcome is determined: 0, one digit too many, all liquid ids, one more than that
+NFByAmount(S, a, r, n, auth) ==
+  IF auth /\ ~S.sigs THEN Fl(S, "Unauthorized")
+  ELSE IF n % Unit # 0 THEN Fl(S, "InvalidAmount")
+  ELSE IF n > Unit * Cardinality(S.vault[a][r].ids) THEN Fl(S, "NotEnoughAmount")
+  ELSE S
+IdsByAmount(S, a, r, n) == IF n = 0 THEN {} ELSE S.vault[a][r].ids
+WithdrawNFAmount(S, a, r, n) ==
+  LET c == NFByAmount(S, a, r, n, TRUE) IN IF ~c.ok THEN c
+  ELSE PutW([S EXCEPT !.vault[a][r].ids = @ \ IdsByAmount(S, a, r, n)], r, NC(IdsByAmount(S, a, r, n)), 0)
+BurnNFAmountInAccount(S, a, r, n) ==
+  LET c == NFByAmount(S, a, r, n, TRUE) IN IF ~c.ok THEN c
+  ELSE BurnC([S EXCEPT !.vault[a][r].ids = @ \ IdsByAmount(S, a, r, n)], r, NC(IdsByAmount(S, a, r, n)))
+RecallNFAmount(S, a, r, n) ==
+  LET c == NFByAmount(S, a, r, n, FALSE) IN IF ~c.ok THEN c
+  ELSE PutW([S EXCEPT !.vault[a][r].ids = @ \ IdsByAmount(S, a, r, n)], r, NC(IdsByAmount(S, a, r, n)), 0)
 
 Recall(S, a, r, n) ==                                                 \* direct vault access; the recaller role is allow-all
   IF n % Unit # 0 THEN Fl(S, "InvalidAmount")
@@ -407,6 +427,10 @@ Exec(S, i) ==
     [] i.op = "MintNF"           -> MintNF(S, i.r, i.ids)
     [] i.op = "MintNFWrongType"  -> MintNFWrongType(S, i.r)
     [] i.op = "MintRuid"         -> MintRuid(S, i.r, i.n)
+    [] i.op = "MintSingleRuid"   -> MintSingleRuid(S, i.r)
+    [] i.op = "WithdrawNFAmount" -> WithdrawNFAmount(S, i.a, i.r, i.n)
+    [] i.op = "BurnNFAmountInAccount" -> BurnNFAmountInAccount(S, i.a, i.r, i.n)
+    [] i.op = "RecallNFAmount"   -> RecallNFAmount(S, i.a, i.r, i.n)
     [] i.op = "Burn"             -> Burn(S, i.k)
     [] i.op = "BurnInAccount"    -> BurnInAccount(S, i.a, i.r, i.n)
     [] i.op = "BurnNFInAccount"  -> BurnNFInAccount(S, i.a, i.r, i.ids)
@@ -472,6 +496,10 @@ CandOf(S, op) ==
        [] op = "MintNF" -> ResIds
        [] op = "MintNFWrongType" -> {I(op, "", r, 0, {}, 0, "", 0) : r \in NRes}
        [] op = "MintRuid" -> UNION {{I(op, "", r, n, {}, 0, "", 0) : n \in {m \in 1..2 : IF ResDef[r].ruid THEN S.ctr[r] + m <= Cardinality(ResDef[r].uni) ELSE m = 1}} : r \in NRes}
+       [] op = "MintSingleRuid" -> {I(op, "", r, 0, {}, 0, "", 0) : r \in {x \in NRes : ~ResDef[x].ruid \/ S.ctr[x] < Cardinality(ResDef[x].uni)}}
+       [] op \in {"WithdrawNFAmount", "BurnNFAmountInAccount", "RecallNFAmount"} ->
+            UNION {{I(op, a, r, n, {}, 0, "", 0) : n \in {0, 1, Unit * Cardinality(S.vault[a][r].ids), Unit * Cardinality(S.vault[a][r].ids) + Unit}}
+                   : a \in Accts, r \in NRes}
        [] op = "Burn" -> {I(op, "", "", 0, {}, k, "", 0) : k \in bks}
        [] op = "BurnInAccount" -> AccResAmt
        [] op = "BurnNFInAccount" -> AccResIds
@@ -577,6 +605,10 @@ IDropAuthZoneSignatureProofs == "DropAuthZoneSignatureProofs" \in Ops /\ \E ins 
 IAzProofOfAmount == "AzProofOfAmount" \in Ops /\ \E ins \in CandOf(Cur, "AzProofOfAmount") : StepR(ins, AzProofOfAmount(Cur, ins.r, ins.n))
 IAzProofOfNF == "AzProofOfNF" \in Ops /\ \E ins \in CandOf(Cur, "AzProofOfNF") : StepR(ins, AzProofOfNF(Cur, ins.r, ins.ids))
 IAzProofOfAll == "AzProofOfAll" \in Ops /\ \E ins \in CandOf(Cur, "AzProofOfAll") : StepR(ins, AzProofOfAll(Cur, ins.r))
+IMintSingleRuid == "MintSingleRuid" \in Ops /\ \E ins \in CandOf(Cur, "MintSingleRuid") : StepR(ins, MintSingleRuid(Cur, ins.r))
+IWithdrawNFAmount == "WithdrawNFAmount" \in Ops /\ \E ins \in CandOf(Cur, "WithdrawNFAmount") : StepR(ins, WithdrawNFAmount(Cur, ins.a, ins.r, ins.n))
+IBurnNFAmountInAccount == "BurnNFAmountInAccount" \in Ops /\ \E ins \in CandOf(Cur, "BurnNFAmountInAccount") : StepR(ins, BurnNFAmountInAccount(Cur, ins.a, ins.r, ins.n))
+IRecallNFAmount == "RecallNFAmount" \in Ops /\ \E ins \in CandOf(Cur, "RecallNFAmount") : StepR(ins, RecallNFAmount(Cur, ins.a, ins.r, ins.n))
 IAssertContains == "AssertContains" \in Ops /\ \E ins \in CandOf(Cur, "AssertContains") : StepR(ins, AssertContains(Cur, ins.r, ins.n))
 IAssertAny == "AssertAny" \in Ops /\ \E ins \in CandOf(Cur, "AssertAny") : StepR(ins, AssertAny(Cur, ins.r))
 IAssertNF == "AssertNF" \in Ops /\ \E ins \in CandOf(Cur, "AssertNF") : StepR(ins, AssertNF(Cur, ins.r, ins.ids))
@@ -613,6 +645,7 @@ Next == \/ EndTx
         \/ IDropAuthZoneProofs
         \/ IDropAuthZoneRegularProofs
         \/ IAssertContains
+        \/ IMintSingleRuid \/ IWithdrawNFAmount \/ IBurnNFAmountInAccount \/ IRecallNFAmount
         \/ IDropAuthZoneSignatureProofs \/ IAzProofOfAmount \/ IAzProofOfNF \/ IAzProofOfAll
         \/ IAssertAny
         \/ IAssertNF
@@ -731,6 +764,7 @@ TotalUnchangedByLocks ==    \* creating, cloning and dropping proofs moves funds
        /\ \A k \in DOMAIN nb : nb'[k].live = nb[k].live /\ (nb[k].live => Total(nb[k].res, nb'[k].c) = Total(nb[k].res, nb[k].c))]_vars
 LeaveOps == {"Withdraw", "BurnInAccount", "Recall"}
 LeaveNFOps == {"WithdrawNF", "BurnNFInAccount", "RecallNF"}
+LeaveNFAmtOps == {"WithdrawNFAmount", "BurnNFAmountInAccount", "RecallNFAmount"}
 OnlyLiquidLeaves ==     \* what leaves a vault comes out of its liquid part; the locks stay
   [][/\ (LOp \in LeaveOps /\ last'.ok) =>
           /\ LIn.n <= vault[LIn.a][LIn.r].liq
@@ -738,6 +772,10 @@ OnlyLiquidLeaves ==     \* what leaves a vault comes out of its liquid part; the
      /\ (LOp \in LeaveNFOps /\ last'.ok) =>
           /\ LIn.ids \subseteq vault[LIn.a][LIn.r].ids
           /\ vault'[LIn.a][LIn.r] = [vault[LIn.a][LIn.r] EXCEPT !.ids = @ \ LIn.ids]
+     /\ (LOp \in LeaveNFAmtOps /\ last'.ok) =>          \* by amount: only liquid ids leave, the locked ones stay
+          /\ LIn.n <= Unit * Cardinality(vault[LIn.a][LIn.r].ids)
+          /\ vault'[LIn.a][LIn.r].lki = vault[LIn.a][LIn.r].lki /\ vault'[LIn.a][LIn.r].ids \subseteq vault[LIn.a][LIn.r].ids
+          /\ Unit * Cardinality(vault[LIn.a][LIn.r].ids \ vault'[LIn.a][LIn.r].ids) = LIn.n
      /\ (LOp \in LeaveOps /\ LIn.n > vault[LIn.a][LIn.r].liq) => ~last'.ok
      /\ (LOp \in LeaveNFOps /\ ~(LIn.ids \subseteq vault[LIn.a][LIn.r].ids)) => ~last'.ok]_vars
 DivisibilityState == \A x \in Containers : IsF(x[1]) => x[2].liq % Unit = 0 /\ \A n \in DOMAIN x[2].lka : n % Unit = 0
@@ -750,7 +788,7 @@ LiveSubsetEver == \A r \in NRes : Live(r) \subseteq ever[r] /\ ever[r] \subseteq
 HeldIdsAreLive == \A r \in NRes : HeldIds(r) = Live(r)
 EverMonotone == [][\A r \in NRes : pre.ever[r] \subseteq pre'.ever[r] /\ pre.ctr[r] <= pre'.ctr[r]]_vars
 MintedOnce == \A r \in NRes : \A x \in ResDef[r].uni : mintCount[r][x] <= 1 /\ (mintCount[r][x] = 1 <=> x \in pre.ever[r])
-MintFresh == [][(LOp \in {"MintNF", "MintRuid"} /\ last'.ok) =>
+MintFresh == [][(LOp \in {"MintNF", "MintRuid", "MintSingleRuid"} /\ last'.ok) =>
                   /\ minted'[LIn.r].ids \ minted[LIn.r].ids = ever'[LIn.r] \ ever[LIn.r]
                   /\ (LOp = "MintNF" => LIn.ids \cap ever[LIn.r] = {} /\ ever'[LIn.r] = ever[LIn.r] \cup LIn.ids)]_vars
 DataChangeRestricted ==
